@@ -359,6 +359,10 @@ func recordAt(res *prodResult, sr *subRec, part int32, off int64) bool {
 	if i < 0 || int(i) >= len(lg[part]) {
 		return false
 	}
+	if sr.Spec.Bare {
+		r := lg[part][i]
+		return r.Key == nil && r.Value == nil && len(r.Headers) == 0
+	}
 	id, ok := msgIDFromRecord(lg[part][i])
 	return ok && id == sr.Spec.ID
 }
@@ -762,9 +766,18 @@ func oracleC04(res *prodResult, vs *violSet) bool {
 		}
 	}
 	// every record in any log maps to a submitted message, content equal
+	bareLeft := map[string]int{} // partitions that may hold records without key, value and headers
+	for _, ms := range sc.Msgs {
+		if ms.Bare {
+			bareLeft[fmt.Sprintf("%s/%d", ms.Topic, ms.Part)]++
+		}
+	}
 	for _, t := range sc.Topics {
 		for p, lg := range res.logs[t] {
 			for _, r := range lg {
+				if k := fmt.Sprintf("%s/%d", t, p); r.Key == nil && r.Value == nil && len(r.Headers) == 0 && bareLeft[k] > 0 {
+					continue // (possibly a resent copy: a held response can outlast the read timeout)
+				}
 				id, ok := msgIDFromRecord(r)
 				ms := specByID[id]
 				if !ok || ms == nil {
